@@ -22,8 +22,8 @@ CHECKS = {
             "dense branching interpreter for the same abstract program (masks, confusion maps, repeated keys, qutrits, resets, "
             "key/bitmask/sympy conditions); terminal fast path and per-repetition path both judged against the reference; "
             "repetition independence and row decoding checked. No statistics.",
-            "Programs <=4 wires, <=7 recorded digits, <=3000 paths; branches below 1e-6 are not forced; Clifford simulators are "
-            "covered under C13. Trusts catalogue + interpreter.", "DESIGN.md 5/C02"),
+            "Programs <=4 wires, <=7 recorded digits, <=3000 paths; branches below 1e-6 are not forced. Trusts "
+            "catalogue + interpreter.", "DESIGN.md 5/C02"),
     "C03": ("exploration", "runtime monitor at cirq.unitary/kraus/mixture + closed-form catalogue oracle",
             "Every generated gate instance (special-value grid x random reals, all exported families incl. qudit, Google and IonQ "
             "gates, channels, named constants) is observed through cirq.unitary / kraus / mixture / qid_shape and judged against a "
@@ -207,6 +207,33 @@ CHECKS = {
             "to INCONCLUSIVE; LINE-event yield injection not built.", "DESIGN.md 5/C20"),
 }
 
+# additions after the first complete build (appended to the level text)
+ALSO = {
+    "C01": " Also: user gates that implement only _unitary_, echo steps, every documented control-value form on the classical simulator.",
+    "C02": " Also: the Clifford simulators (CH form, tableau sampler) with repeated keys and feed-forward; Pauli-product measurements; "
+           "nested repeated sub-circuits that re-use key names, on all simulators.",
+    "C04": " Also: Moments as values (operations on interleaved qubit ranges in shuffled order) and arbitrary channels.",
+    "C06": " Also: a 'merge anything connected' option set for the merge primitives and a verdict for outputs that lost every measurement.",
+    "C07": " Also: named two-qubit gates at integer powers and pairs of named gates alone on one pair; device circuits holding the same gate "
+           "with and without the tag that decides its gate family.",
+    "C08": " Also: the same gate on exchanged qubits (parameters snapped onto symmetry lattices), CliffordGate integer powers, "
+           "trace-distance bounds through control wrappers.",
+    "C09": " Also: arbitrary (complex, non-diagonal) channels, ThermalNoiseModel against its documented Lindblad operators, "
+           "InsertionNoiseModel identifier matching, device-derived models (NoiseModelFromNoiseProperties), qis measures.",
+    "C10": " Also: composed resolvers with overlapping keys, symbolic repetition counts resolving to negative integers.",
+    "C11": " Also: mapping arguments in random insertion order, arbitrary channels.",
+    "C12": " Also: classically controlled sub-circuits, key maps that re-point control keys, tags at every depth, symbolic / replaced "
+           "repetition counts after arbitrary earlier queries, repeat-of-repeat id order and records, parent paths.",
+    "C13": " Also: multi-qubit CliffordGate on arbitrary positions of a larger register, every integer power.",
+    "C14": " Also: cirq.work.measure_observables on eigenstates (exact sampled means, both groupings, readout symmetrisation).",
+    "C15": " Also: the parameterized sqrt-iSWAP decompositions resolved at special values.",
+    "C16": " Also: zero / huge bitmasks, string tags spelling qubit ids, comparison aware of 32-bit literals and of gate value equality.",
+    "C17": " Also: echo operations (an earlier operation repeated with one parameter changed).",
+    "C18": " Also: cirq_google EngineResult views and JSON, ProcessorSampler batching against a fake processor, ValidatingSampler, sweeps "
+           "spelled in mixed key order, results larger than the histogram's internal batch.",
+    "C19": " Also: user gates with only _unitary_ (generic KAK fall-back) and keys measured repeatedly with different widths.",
+}
+
 PENDING_REASON = "check not built yet in this round; design in DESIGN.md section 5 (runtime monitor + reference oracle)"
 
 
@@ -217,6 +244,7 @@ def main():
         if pid not in CHECKS:
             continue
         cat, tech, text, note, ref = CHECKS[pid]
+        text = text + ALSO.get(pid, "")
         checks.append({
             "property_id": pid,
             "quick_cmd": "./check %s quick" % pid,
